@@ -297,7 +297,25 @@ def stateful (s : Store) (w : List String) : Option (Store × String) :=
       let ctx ← parseCtx "-" mark
       let s' := match cls with
         | .servfail => s.writeBackFailure H now ctx k 0
-        | _ => (s.setFromResponse H now k.name k.qtype k.qclass k.cd false .useful).resetMatchingFailures H k
+        | _ => s.writeBackAnswer H now k false
+      some (s', s!"miss upstream=1 rcode={rc} {lenLookup s' now k}")
+  | "eserve" :: n :: t :: c :: cd :: sc :: [now, outcome, rs] => do
+    let k ← parseQ [n, t, c, cd, sc]; let now ← parseInt now; let rs ← rs.toInt?
+    match s.lookupFailure H now k with
+    | some _ =>
+      let req : Req := ⟨true, k.cd, some ⟨1232, false, [8]⟩⟩
+      some (s, "hit upstream=0 " ++ fmtResp (response (some req)))
+    | none =>
+      let (rc, cls, mark) ← (if outcome == "servfail" then some (2, RespClass.servfail, "none")
+        else if outcome == "refused" then some (5, RespClass.servfail, "none")
+        else if outcome == "nxdomain" then some (3, RespClass.useful, "none")
+        else if outcome == "useful" then some (0, RespClass.useful, "none")
+        else if outcome.startsWith "local:" then some (2, RespClass.servfail, (outcome.drop 6).toString)
+        else none)
+      let ctx ← parseCtx "-" mark
+      let s' := match cls with
+        | .servfail => s.writeBackFailure H now ctx k 0
+        | _ => s.writeBackAnswer H now k (decide (rs > 0) && (normalizeScope k.scope).isSome)
       some (s', s!"miss upstream=1 rcode={rc} {lenLookup s' now k}")
   | ["alias", n, c, cd, _opt, now, outcome] => do
     let k ← parseQ [n, "1", c, cd, "-"]; let now ← parseInt now
@@ -305,7 +323,7 @@ def stateful (s : Store) (w : List String) : Option (Store × String) :=
     | some _ => some (s, "hit upstream=0 target=0 rcode=2")
     | none =>
       if outcome == "ok" then
-        let s' := (s.setFromResponse H now k.name k.qtype k.qclass k.cd false .useful).resetMatchingFailures H k
+        let s' := s.writeBackAnswer H now k false
         some (s', s!"miss upstream=1 target=1 rcode=0 {lenLookup s' now k}")
       else
         let mark := if outcome.startsWith "local:" then (outcome.drop 6).toString
@@ -324,7 +342,7 @@ def stateful (s : Store) (w : List String) : Option (Store × String) :=
       | _ =>
         -- a useful answer: the unscoped write resets the shared exact question,
         -- then ResponseWriter resets exact + covering zones for the client's audience
-        (s.setFromResponse H now k.name k.qtype k.qclass k.cd false .useful).resetMatchingFailures H k
+        s.writeBackAnswer H now k false
     some (s', lenLookup s' now k)
   | _ => none
 
